@@ -270,6 +270,22 @@ theorem C08_read_bytes_faulty (data : Bytes) (n : Nat) (rd : Reader) (h : RInv r
   obtain ⟨a, _, c⟩ := readBytes_spec data n rd.fuelFor rd h (by simp [Reader.fuelFor])
   exact ⟨a, c⟩
 
+/-- the slice lexer's `read_bytes(n)` (lexer.rs:762): exactly the next `n` bytes and the lexer
+advanced by `n` when that many are left; otherwise the `Eof` error at the current position with
+the lexer unchanged — never a short slice -/
+theorem C08_lexer_read_bytes (l : Lexer) (n : Nat) :
+    (n ≤ l.data.length →
+      l.readBytes n = (.ok (l.data.take n), { l with data := l.data.drop n })) ∧
+    (l.data.length < n → l.readBytes n = (.error ⟨l.position, .eof⟩, l)) := by
+  constructor
+  · intro h
+    simp [Lexer.readBytes, h]
+  · intro h
+    have : ¬ (l.data.length ≥ n) := by omega
+    simp [Lexer.readBytes, this, Lexer.errPosition]
+
+example : (Lexer.new [0x45, 0x55, 0x34]).readBytes 4 = (.error ⟨0, .eof⟩, Lexer.new [0x45, 0x55, 0x34]) := by rfl
+
 /-- **Known finding, exhibited on the model** (`zero-capacity-buffer-drops-input`):
 `TokenReader::builder().buffer_len(0).build(reader)` reports a clean end of input on the first
 `next()` without delivering a single byte, for *every* input and schedule — although the slice
